@@ -187,6 +187,9 @@ func foldChild(run *ev.Run, o childOutcome, raceFilter func(string) bool) {
 		run.Inconclusive(fmt.Sprintf("child %s could not run: %v", o.Spec.Label, o.Err))
 	case o.TimedOut:
 		run.Inconclusive(fmt.Sprintf("child %s hit the wall-clock watchdog (last case %s)", o.Spec.Label, tail(o.LastCase, 300)))
+	case o.Spec.Race && o.ExitCode == 66 && o.Blob != nil:
+		// the race runtime's exit status when it has reported races; the
+		// reports themselves are folded below
 	case o.ExitCode != 0 || o.Blob == nil:
 		kind := "exit"
 		switch {
